@@ -42,7 +42,10 @@ def make_infeasible(p, rng):
     elif kind == "zero":
         t["effort"] = ["0", "h"]
     elif kind == "huge":
-        t["effort"] = [str(rng.choice([2000, 9000])), "h"]
+        # huge relative to the project; the slot count (and so the admissible running time) grows with
+        # effort / resolution, so the largest efforts go with the coarser resolutions
+        G = q.get("G", 3600)
+        t["effort"] = [str(rng.choice([2000, 9000] if G >= 1800 else [600, 2000] if G >= 900 else [300, 600])), "h"]
         cmp_ok = False
     elif kind == "neg":
         t["effort"] = ["-5", "h"]
@@ -56,6 +59,23 @@ def make_infeasible(p, rng):
             t.setdefault("deps", []).append({"target": other, "ref": other, "gap": "400d"})
         cmp_ok = False
     return q, kind, cmp_ok
+
+
+def budget_of(q):
+    """admissible seconds for one case: proportional to (slots of work + slots of the project) x scenarios x resources.
+    Measured cost on this machine is about 60 us per such unit single-threaded; the factor leaves room for 16 loaded workers."""
+    G = q.get("G", 3600)
+    work = sum(float(A.effort_hours(t["effort"])) for _, t, _, _ in A.flat_tasks(q) if t.get("effort")) * 3600 / G
+    proj = (A.end_of(q) - q["start"]) / G
+    nsc = 1 + sum(1 for _ in _walk_scen(q.get("scenarios") or []))
+    nres = max(1, len(A.flat_resources(q)))
+    return 20 + 0.0005 * (abs(work) + proj) * nsc * nres
+
+
+def _walk_scen(scs):
+    for s in scs:
+        yield s
+        yield from _walk_scen(s.get("children") or s.get("scenarios") or [])
 
 
 TOKEN = re.compile(r'"[^"]*"|[A-Za-z_][A-Za-z0-9_.!]*|\d[\d:.\-]*[a-z]*|[{}\[\],+\-]|\S')
@@ -109,7 +129,7 @@ def run(chk):
             found.append((f"C11: scheduling a grammatical project failed with {str(o)[:160]}", {"text": r["text"], "ast": r["ast"], "impl": o}))
     others = [(q, kind) for q, kind, ok in inf if not ok]
     texts = [render.render(q) for q, _ in others]
-    outs = chk.impl.run(["J " + json.dumps({"op": "sched", "text": t}) for t in texts])
+    outs = chk.impl.run(["J " + json.dumps({"op": "sched", "text": t, "budget": budget_of(q)}) for (q, _), t in zip(others, texts)])
     for (q, kind), t, o in zip(others, texts, outs):
         kinds[kind] = kinds.get(kind, 0) + 1
         if not o.startswith("J "):
@@ -158,7 +178,7 @@ def run(chk):
     chk.cov["malformed_outcomes"] = classes
     chk.cov["rule"] = ("(i) grammatical but awkward projects (dependency cycles, self-dependencies, duplicate edges, starts / deadlines / gaps "
                        "beyond or before the horizon, resources that never work, zero, negative and huge efforts): must schedule or warn, never "
-                       "crash or hang (20 s per case), outcome equal to the Lean model's where the model's domain covers the input; (ii) token-"
+                       "crash or hang (20 s per case plus 0.5 ms per slot x scenario x resource of the case), outcome equal to the Lean model's where the model's domain covers the input; (ii) token-"
                        "level corruptions of valid texts (delete, duplicate, swap, character flip, brace, truncation, junk token): only 'parse "
                        "error' or a schedule are admissible; non-trivial = distinct texts")
     chk.assumptions += ["Lark's behaviour, Python exceptions in glue code, recursion limits and wall-clock are observed, not modelled (partial)"]
